@@ -77,8 +77,11 @@ FIXED_UNIONS = [
     "U(str)",                                            # one member
     "U(i64|u64|d18)",
     "U(d2|d1)",                                          # "1.5" first, "1.25" first, canonical of d1 never reached
+    "U(lref(i8)|lref(str:2..3)|bool)",                   # two leafref members: their values carry the TARGET's type (finding F424: sort finds neither)
+    "U(i16|lref(d1)|str)",                               # a leafref member between ordinary ones
+    "U(lref(%s)|lref(u8)|%s)" % (E1, P_DIG),
 ]
-MEMBER_POOL = ["i8", "u8", "i16:-300..300", "u16", "i32", "i64", "u64:0..5,9223372036854775808..18446744073709551615", "d1", "d3:-5000..5000", "bool", "str", "str:0..2",
+MEMBER_POOL = ["lref(i8)", "lref(str:0..2)", "i8", "u8", "i16:-300..300", "u16", "i32", "i64", "u64:0..5,9223372036854775808..18446744073709551615", "d1", "d3:-5000..5000", "bool", "str", "str:0..2",
                "str:2..3", E1, E2, B1, P_AB, P_DIG]
 
 UNION_POOL = [b"", b" ", b"0", b"1", b"+1", b"01", b" 1", b"1 ", b"-0", b"-1", b"7", b"-3", b"10", b"127", b"128", b"255", b"256", b"-128", b"-129", b"300", b"-300", b"301",
@@ -281,6 +284,7 @@ def run_union(run):
     for u in unions:
         pool = set(UNION_POOL)
         for m in members[u]:
+            m = m[5:-1] if m.startswith("lref(") else m
             head, parts = (m.split(":")[0], []) if m.startswith(("enum", "bits", "pstr")) else valcomp.parse_desc(m)
             for a, b in parts:
                 for v in (a - 1, a, b, b + 1):
@@ -449,7 +453,7 @@ def routes_union(run, unions, lex_of, accepted):
         if valcomp.xml_plain(s) and carrier: mask |= 1
         if carrier: mask |= 2
         if valcomp.JSON_INT.match(s) or s in (b"true", b"false"): mask |= 4
-        if all(0x20 <= c < 0x7f for c in s) and s.strip(b" ") == s and cx.dist["val:route:union-default-run"] < cx.n(40, 600):
+        if all(0x20 <= c < 0x7f for c in s) and s.strip(b" ") == s and cx.dist["val:route:union-default-run"] < cx.n(40, 600) and "lref(" not in u:
             mask |= 32
             cx.dist["val:route:union-default-run"] += 1
         if not (b"'" in s and b'"' in s): mask |= 64
@@ -633,6 +637,8 @@ def distribution(cx):
     for k, v in cx.dist.items():
         if k.startswith("val:union:member="):
             pos["member %s" % k.split("=")[1].split("/")[0]] += v
+        elif k.startswith("val:union-validate:"):
+            pos["after validation " + k.split(":", 2)[2]] += v
         elif k == "val:union:no-member":
             pos["no member"] += v
         elif k.startswith("val:pstr:"):
@@ -708,7 +714,56 @@ def run_union_idref(run):
     valcomp.laws_value(run, accepted, pairs)
 
 
+VALID_UNIONS = ["U(lrefr(i8)|str:0..3)", "U(lrefr(i8)|lrefr(str:1..2)|bool)", "U(i16:0..5|lrefr(d1)|lrefr(i8))", "U(lrefr(%s)|lrefr(u8)|%s)" % (E1, E2),
+                "U(str:1..1|lrefr(i16))", "U(lrefr(i8))", "U(lrefr(i8)|lrefr(i8:1..5)|str:0..2)", "lrefr(i8)", "lrefr(str:1..3)"]
+VALID_POOL = [b"1", b"+1", b"01", b"7", b"-3", b"a", b"x y", b"true", b"10", b"3", b"9", b"127", b"128", b"1.5", b"7.0", b"xy", b"abcd", b"", b" 1"]
+
+
+def run_union_valid(run):
+    """the `validate` callback of union (lyd_validate_*): members with require-instance are resolved against the data tree, the members are tried
+    again in order and the value may end up with ANOTHER member than at store time"""
+    cx = run.cx
+    rng = cx.sub_rng("union-valid")
+    cases = []
+    for u in VALID_UNIONS:
+        for s in VALID_POOL:
+            tsets = [[], [s], [b"1", b"7"], [b"2", b"+1", b"a"], [b"xy", b"10", b"7.0"]]
+            tsets.append(rng.sample(VALID_POOL, 3))
+            for ts in (tsets if cx.tier == "thorough" or u in VALID_UNIONS[:4] else tsets[:3]):
+                cases.append("uvalid %s %s%s" % (u, hx(s), "".join(" " + hx(t) for t in ts)))
+    run.diff(cases)
+    for c in cases:
+        r = run.get(c)
+        cx.count(("uvalid", c), True, "val:union-validate:%s" % ("member=%s" % r[2] if r[0] == "ok" else r[1]))
+        # (L) the validated value keeps the canonical form the store gave it or the value is refused: validation never invents a value
+        t = c.split()
+        st = run.impl.get("validate %s %s" % (t[1], t[2]))
+        if r[0] == "ok" and st is not None and st[0] != "ok":
+            cx.fail("val", "a value the type refuses is accepted by validation", {"type": t[1], "value_hex": t[2], "got": r, "store": st, "law": "validate_implies_store"})
+    # a leafref on its own: compare / sort / LYB / dup are the callbacks of the target's type, reached through the leafref plug-in
+    from checks import valcomp
+    cases, pairs, accepted = [], {}, {}
+    for d in ("lref(i8)", "lref(str:0..3)", "lrefr(d1)", "lref(%s)" % E1):
+        acc = [s for s in VALID_POOL + [b"-128", b"0.5", b"b", b"ab"] if (run.impl.get("validate %s %s" % (d, hx(s))) or ["?"])[0] == "ok"]
+        if not acc:
+            run.diff(["validate %s %s" % (d, hx(s)) for s in VALID_POOL + [b"-128", b"0.5", b"b", b"ab"]])
+            acc = [s for s in VALID_POOL + [b"-128", b"0.5", b"b", b"ab"] if run.get("validate %s %s" % (d, hx(s)))[0] == "ok"]
+        accepted[d] = acc
+        pr = [(a, b) for a in acc for b in acc][:cx.n(40, 200)]
+        pairs[d] = (acc[:6], pr)
+        for a, b in pr:
+            cases += ["cmp %s %s %s" % (d, hx(a), hx(b)), "cmp %s %s %s" % (d, hx(b), hx(a))]
+        for a in acc[:6]:
+            c = unhex(run.get("validate %s %s" % (d, hx(a)))[1])
+            cases += ["lybrt %s %s" % (d, hx(a)), "validate %s %s" % (d, hx(c)), "cmp %s %s %s" % (d, hx(a), hx(c))]
+    run.diff(cases)
+    valcomp.laws_value(run, accepted, pairs)
+    cx.rule("val: union / leafref validation (lyd_validate_module): %d types with require-instance leafref members x %d values x up to 6 sets of target instances; "
+            "reply = canonical value and the member that holds the value AFTER validation" % (len(VALID_UNIONS), len(VALID_POOL)))
+
+
 def run_all(run):
+    run_union_valid(run)
     run_union(run)
     run_pstr(run)
     run_idref(run)
